@@ -288,6 +288,73 @@ func checkC14(w *Worker) {
 			x.Violate("C14|merge-shapes|reads-back-differently", fmt.Sprintf("`%s`\ninput:\n%s\nprinted:\n%s\nreads back as\n%s\nexpected\n%s", c.shell(), text, r.String(), got, want), map[string]interface{}{"cmd": c.shell(), "observed": r.String()})
 		}
 	})
+	// every special scenario with finite amounts (harness/specials.go): print, read back, print again
+	var c14Specials []specialScenario
+	for _, sc := range specialScenarios() {
+		if sc.Name != "quantities-non-finite" {
+			c14Specials = append(c14Specials, sc)
+		}
+	}
+	w.Explore("special-scenarios", ExploreOpts{ShardDepth: 2}, func(x *Exec) {
+		sc := c14Specials[x.Choose(len(c14Specials), "input:scenario")]
+		format := []string{"2006/01/02", "02.01.2006"}[x.Choose(2, "config:date-format")]
+		lg := append(absLog{}, sc.Log...)
+		for i := range lg {
+			t, err := time.Parse("2006/01/02", lg[i].Date)
+			if err != nil {
+				hfail("scenario date %q", lg[i].Date)
+			}
+			lg[i].Date = t.Format(format)
+		}
+		text := renderLog(lg)
+		c1 := appCase{Args: []string{"--date-format", format, "print"}, Files: map[string]string{"food.yaml": "", "log.yaml": text}}
+		p1 := runApp(c1)
+		x.Obs(p1.Key())
+		x.Case(sc.Name+format, len(lg) > 0)
+		rep := map[string]interface{}{"scenario": sc.Name, "cmd": tailStr(c1.shell(), 2000), "observed": tailStr(p1.String(), 2000)}
+		if p1.Failed || p1.Panic != "" {
+			x.Violate("C14|special-scenario|print-failed", fmt.Sprintf("scenario %s: %s", sc.Name, tailStr(p1.String(), 600)), rep)
+			return
+		}
+		p2 := runApp(appCase{Args: c1.Args, Files: map[string]string{"food.yaml": "", "log.yaml": p1.Stdout}})
+		if p2.Failed || p2.Stdout != p1.Stdout {
+			x.Violate("C14|special-scenario|not-a-fixpoint", fmt.Sprintf("scenario %s: printing the printed log gives\n%s\ninstead of\n%s", sc.Name, tailStr(p2.String(), 800), tailStr(p1.Stdout, 800)), rep)
+			return
+		}
+		recs, errs, ret, pan := parseAll(p1.Stdout)
+		want, got := "", ""
+		for _, d := range lg {
+			want += fmt.Sprintf("%q{", d.Date)
+			var order []string
+			sum := map[string]float64{}
+			for _, e := range d.Entries {
+				if _, ok := sum[e.Name]; !ok {
+					order = append(order, e.Name)
+				}
+				sum[e.Name] += e.Val
+			}
+			for _, n := range order {
+				want += fmt.Sprintf("%q=%s;", n, normNum(fmt.Sprintf("%0.2f", sum[n])))
+			}
+			for _, n := range d.Notes {
+				want += fmt.Sprintf("#%q=%q;", n.Name, n.Value)
+			}
+			want += "} "
+		}
+		for _, r := range recs {
+			got += fmt.Sprintf("%q{", r.Header)
+			for _, e := range r.Els {
+				got += fmt.Sprintf("%q=%s;", e.Name, normNum(fmt.Sprintf("%0.2f", e.Value)))
+			}
+			for _, n := range r.Notes {
+				got += fmt.Sprintf("#%q=%q;", n.Name, n.Value)
+			}
+			got += "} "
+		}
+		if pan != "" || ret != nil || len(errs) > 0 || got != want {
+			x.Violate("C14|special-scenario|reads-back-differently", fmt.Sprintf("scenario %s (%s)\nprinted:\n%s\nreads back as %s\nexpected      %s\n%v %v %s", sc.Name, format, tailStr(p1.Stdout, 1200), tailStr(got, 1500), tailStr(want, 1500), errs, ret, pan), rep)
+		}
+	})
 	w.Explore("format-from-flag-env-config", ExploreOpts{ShardDepth: 6, Budgets: map[string]int{"layout": 0}}, body(1, []int{2}))
 }
 
